@@ -6,7 +6,7 @@ Numbers are exact rationals (`Rat`); the two places where the C++ uses `±INFINI
 (infinite bounds, `CTX_NONE ↦ {INFINITY, 0}`) are modelled by `ER` / `Option Rat` bounds.
 A *point* is a total function `Nat → Rat` (variables outside the vector read as 0).
 
-The model follows the C++ function by function; quirks are kept (see `checkInt`, `Violation.check`).
+The model follows the C++ function by function; quirks are kept (see `Violation.check`, `Con.adef`).
 Core Lean only.
 -/
 namespace MpVerif.C07
@@ -244,6 +244,11 @@ inductive Con where
   | compl (expr : Body) (var : Nat)
   deriving Repr, Inhabited
 
+/-- the `recomp_vals()` branch of the generic `ComputeViolation`: recomputed value minus the solver's, plus the
+bound violation of the recomputed value -/
+def recompViol (res : Nat) (e : Env) : Violation :=
+  ⟨.fin (rabs (e.x res - e.raw res) + e.boundsViolPos res), e.x res⟩
+
 /-- generic `ComputeViolation(CustomFunctionalConstraint)` of `constr_base.h` -/
 def funcViol (res : Nat) (ctx : Ctx) (f : Func) (e : Env) : Violation :=
   if !e.recomp then
@@ -253,11 +258,12 @@ def funcViol (res : Nat) (ctx : Ctx) (f : Func) (e : Env) : Violation :=
     | .pos => ⟨.fin viol, e.x res⟩
     | .neg => ⟨.fin (-viol), e.x res⟩
     | .none => ⟨.pinf, 0⟩
-  else
-    ⟨.fin (rabs (e.x res - e.raw res) + e.boundsViolPos res), e.x res⟩
+  else recompViol res e
 
-/-- `ConditionalConstraint::ComputeViolation` (used in both modes) -/
+/-- `ConditionalConstraint::ComputeViolation`: on recomputed values it delegates to the generic formula
+(since /repo ca505ad), on the solver's values it measures the gap of the wrapped constraint by context -/
 def condViol (res : Nat) (ctx : Ctx) (c : AlgCon) (e : Env) : Violation :=
+  if e.recomp then recompViol res e else
   let v := c.viol e.x
   let valid : Bool := !(v.viol.gtRat 0)          -- viol_ <= 0
   let hasArg : Bool := decide ((1/2 : Rat) ≤ e.x res)
@@ -510,10 +516,10 @@ def Model.varBndCands (m : Model) (o : Opts) (x : Pt) (recomp aux : Bool) : List
     [⟨boundLbViol v.lb (x i), o.feastol, some o.feastolrel, v.name⟩,
      ⟨boundUbViol v.ub (x i), o.feastol, some o.feastolrel, v.name⟩])
 
-/-- integrality candidates: relative tolerance `INFINITY` (`none`) -/
+/-- integrality candidates: relative tolerance `0.0` (since /repo 1797720; it was `INFINITY` before) -/
 def Model.varIntCands (m : Model) (o : Opts) (x : Pt) (recomp aux : Bool) : List Cand :=
   ((m.checkedVars recomp aux).filter (fun i => (m.var i).isInt)).map (fun i =>
-    ⟨intViol (x i), o.inttol, none, (m.var i).name⟩)
+    ⟨intViol (x i), o.inttol, some 0, (m.var i).name⟩)
 
 /-- class of a constraint: 8 solver-side, 2 top-level, else 4 intermediate -/
 def Item.cclass (it : Item) : Nat :=
